@@ -731,6 +731,15 @@ func (x *Exec) envAt(pos token.Pos) *Env {
 		v, ok := x.entry[name]
 		return v, ok
 	}
+	env.lookupType = paramTypes(x.fn)
+	env.lookupPtr = func(name string) (Ptr, bool) {
+		if c := x.lookupCellAt(name, pos); c != nil && c.Typ != nil {
+			if _, ok := x.cur.mem[c]; ok {
+				return Ptr{Cell: c}, true
+			}
+		}
+		return Ptr{}, false
+	}
 	return env
 }
 
